@@ -37,12 +37,16 @@ def sweep(rng):
     out = []
     for cls in ('Rotate', 'ShiftScaleRotate'):
         for plane in ('xy', 'yz', 'xz'):
-            for crop in (False, True):
+            for crop, method in ((False, 'largest_box'), (True, 'largest_box'), (True, 'ellipse'), (False, 'ellipse')):
+                if cls != 'Rotate' and method == 'ellipse' and not crop:
+                    continue
                 c = gen_case(rng)
-                dims = [18, 44, 26]
-                rng.shuffle(dims)
+                c['method'] = method
+                # the two axes of the rotation plane get the most different extents (in either order)
+                a, b = (18, 44) if rng.random() < 0.5 else (44, 18)
+                dims = {'xy': [a, b, 26], 'yz': [a, 26, b], 'xz': [26, a, b]}[plane]
                 H, W, D = dims
-                c.update({'cls': cls, 'plane': plane, 'shape': dims, 'angle': rng.choice([30.0, -25.0, 40.0, rng.uniform(15, 60)]),
+                c.update({'cls': cls, 'plane': plane, 'shape': dims, 'angle': rng.choice([30.0, -25.0, 20.0, rng.uniform(18, 32)]),      # moderate angles: the enlarged frame stays far from square
                           'keypoints': [[rng.uniform(5, W - 6), rng.uniform(5, H - 6), rng.uniform(4, D - 5), rng.uniform(0, 6.2), rng.uniform(0.5, 3)] for _ in range(4)],
                           'boxes': []})
                 # boxes away from the centre of the frame (a stretch about the centre moves those most)
